@@ -28,7 +28,9 @@ CONSTANTS Workers,     \* 1..N-1
           TrackFrac,   \* BOOLEAN  carry the fractional weights (exact rationals)
           EngTypes,    \* engine names
           EngNeed,     \* [Ens -> SUBSET EngTypes]   (ensemble_engines)
-          LiteralOrd,  \* BOOLEAN  Layer I stream ordinals (as implemented) instead of Layer R
+          LiteralOrd,  \* BOOLEAN  Layer I stream ordinals (the code before 36c2f14: ordinal := cstep at a restart)
+          FormulaOrd,  \* BOOLEAN  Layer I (the code between 36c2f14 and fe85e87: ordinal := cstep + jobs in flight);
+                       \*          both FALSE: Layer R, the count is part of the restart record (the code since fe85e87)
           VaryInit     \* BOOLEAN  start from every valid set of loaded paths, not only the canonical one
 
 Pins  == 0..(Workers-1)
@@ -272,7 +274,7 @@ Restart ==
   /\ cstep' = rfile.cstep /\ trajnum' = rfile.trajnum
   /\ tsteps' = IF phase = "done" THEN tsteps + MoreSteps ELSE tsteps
   /\ started' = 0 /\ pend' = None /\ phase' = "init"
-  /\ ordn' = IF LiteralOrd THEN rfile.cstep ELSE rfile.ordn
+  /\ ordn' = IF LiteralOrd THEN rfile.cstep ELSE IF FormulaOrd THEN rfile.cstep + Len(rfile.locked) ELSE rfile.ordn
   /\ engOcc' = [t \in EngTypes |-> [k \in 1..EngCount(t) |-> None]]
   /\ jobEng' = [p \in Pins |-> [t \in EngTypes |-> 0]]
   /\ frac' = rfile.frac
